@@ -13,7 +13,8 @@ func init() {
 		Explanation: "Decides validate-before-emit on every path of both pipelines: R1 every byte slice that reaches an emission sink of mainCmd.Run (the atomic write, the --print-only write to cmd.Stdout, the modified side of the --diff preview) or is returned by patch.File.Apply is, along every phi edge, either the result of imports.Process (which parses its input as a complete file) or the src of a go/parser.ParseFile call, and the sink is reachable only through that call's err==nil edge; " +
 			"R2 the err!=nil edges of format.Node / imports.Process / the re-parse record an error for the file and leave the iteration without reaching any sink (mainCmd.Run), resp. return a nil result and the error (File.Apply); " +
 			"R3 the matched slot is assigned only under the AssignableTo test of FileReplacer.Replace. " +
-			"NOT decided: that go/printer output of a valid AST parses (trusted); that the AssignableTo guard is sufficient (it is not — R1 is the real defence).",
+			"NOT decided: that go/printer output of a valid AST parses (trusted); that the AssignableTo guard is sufficient (it is not — R1 is the real defence)." +
+			" R4 every (*bufio.Reader).ReadLine call of the module looks at isPrefix.",
 		Trusted:     append([]string{"imports.Process with FormatOnly parses its whole input with go/parser and returns an error when it does not parse (x/tools internal/imports)"}, commonTrusted...),
 		Assumptions: commonAssumptions,
 	})
@@ -27,6 +28,8 @@ func runC07(r *an.Run) {
 	}
 	c07API(r)
 	slotGuard(r, "R3-slot-guard")
+	// the new content implied by --diff is the validated content only if the lines diffed are its lines
+	readLineKeepsLongLines(r, "R4-the-lines-diffed-are-the-lines-of-the-validated-bytes")
 }
 
 // errNilEdge returns, for a call returning (..., error), the edges taken when
